@@ -470,7 +470,7 @@ func (j *c17j) generated() {
 	depth := ctx.N(3, 4)
 	seen := map[string]bool{}
 	// ---- value documents ----
-	n := ctx.N(4000, 40000)
+	n := ctx.N(8000, 40000)
 	okAfter, total := 0, 0
 	for i := 0; i < n; i++ {
 		t0 := genTy(r, depth, TyOpts{Dyn: true})
@@ -547,7 +547,7 @@ func (j *c17j) generated() {
 	}
 	ctx.Tag(fmt.Sprintf("mutated-value-docs-decoding-ok-permille:%d", okAfter*1000/maxInt(total, 1)))
 	// ---- type documents ----
-	n = ctx.N(2000, 20000)
+	n = ctx.N(4000, 20000)
 	okAfter, total = 0, 0
 	for i := 0; i < n; i++ {
 		t0 := genTy(r, depth, TyOpts{Dyn: true, Opt: true})
@@ -607,7 +607,7 @@ func (j *c17j) generated() {
 	}
 	ctx.Tag(fmt.Sprintf("mutated-type-docs-decoding-ok-permille:%d", okAfter*1000/maxInt(total, 1)))
 	// ---- grammar documents (C15's generator: duplicate keys, wrappers with defects) under mutation ----
-	n = ctx.N(1200, 12000)
+	n = ctx.N(2500, 12000)
 	for i := 0; i < n; i++ {
 		d := genDoc(r, 3)
 		var sb strings.Builder
@@ -627,7 +627,7 @@ func (j *c17j) generated() {
 		j.implied(mb, true)
 	}
 	// ---- raw random bytes ----
-	n = ctx.N(3000, 40000)
+	n = ctx.N(6000, 40000)
 	for i := 0; i < n; i++ {
 		l := r.Intn(40)
 		mb := make([]byte, l)
